@@ -211,9 +211,17 @@ class Facts:
                 self._syn = json.load(fh)["files"]
         return self._syn
 
-    def fn(self, name):
-        """exact lookup; raises KeyError (-> missing anchor)"""
-        return self.fns[name]
+    def fn(self, name, flat=None):
+        """exact lookup; raises KeyError (-> missing anchor).  By default the function comes with its private helpers spliced in
+        (flatten.flat) when flat=True: a rule anchored here then sees the same calls and paths whether or not a block was moved
+        into a helper.  The default is the body as written (many rules name today's helpers); VERIF_FLAT=1 flips the default."""
+        fn = self.fns[name]
+        if flat is None:
+            flat = os.environ.get("VERIF_FLAT", "0") == "1"
+        if not flat:
+            return fn
+        from . import flatten
+        return flatten.flat(self, name)
 
     def find(self, suffix):
         return [f for n, f in self.fns.items() if n.endswith(suffix)]
